@@ -63,7 +63,7 @@ from ser import Ids, Ser, Unsupported, ser, deser
 from props import c01 as K
 
 LEAN_MODULE = "Optyx.Props.C15"
-EXTRA_MODULES = ["Optyx.Props.PinsC15", "Optyx.Props.BuildTie", "Optyx.Props.GradIterTie", "Optyx.Props.SpineTie"]   # transcription anchors (harness/source_pins.py)
+EXTRA_MODULES = ["Optyx.Props.PinsC15", "Optyx.Props.BuildTie", "Optyx.Props.GradIterTie", "Optyx.Props.SpineTie", "Optyx.Props.VarsIterTie"]   # transcription anchors (harness/source_pins.py)
 THEOREMS = [
     "Optyx.Props.C15.gradIter_eq",
     "Optyx.Props.C15.gradIter_tree",
@@ -94,6 +94,10 @@ THEOREMS = [
     "Optyx.Props.SpineTie.depthG_eq",
     "Optyx.Props.SpineTie.compileSwitch_eq",
     "Optyx.Props.SpineTie.getAllVariables_eq",
+    "Optyx.Props.VarsIterTie.atomVars_eq",
+    "Optyx.Props.VarsIterTie.vstep_seen",
+    "Optyx.Props.VarsIterTie.vstep_fresh",
+    "Optyx.Props.VarsIterTie.varsIter_frame",
     "Optyx.Props.PinsC15.anchors",
 ]
 ASSUMPTIONS = [
